@@ -307,14 +307,14 @@ Lemma ukf_lik_ok comps m : Forall item_ok (p_ukf_lik comps m m).
 Proof. unfold p_ukf_lik. repeat step; try apply density_ok; finish. Qed.
 
 Definition ukfc_valid (additive : bool) (lp : layout) (r : nat) (valid : bool) (lm : layout) : Prop :=
-  quat lp = false /\ quat lm = false /\ noise lp = 0 /\ noise lm = 0 /\
+  quat lp = false /\ noise lp = 0 /\ noise lm = 0 /\
   (additive = true -> r = lcov lm).
 
 Lemma ukf_correct_ok additive lp comps r valid lm :
   ukfc_valid additive lp r valid lm ->
   Forall item_ok (p_ukf_correct additive lp comps (if additive then lcov lp else lcov lp + r) r valid lm (lcov lm) lp comps).
 Proof.
-  intros (Hqp & Hqm & Hnp & Hnm & Hadd). unfold p_ukf_correct. cbv zeta.
+  intros (Hqp & Hnp & Hnm & Hadd). unfold p_ukf_correct. cbv zeta.
   apply Forall_app; split.
   - apply Forall_relabel. unfold p_ut. destruct additive; cbv beta iota zeta.
     + rewrite (Hadd eq_refl). apply Forall_app; split; [|apply Forall_when; intro; apply ut_add_noise_ok].
@@ -323,7 +323,7 @@ Proof.
       replace (lcov lp + r) with (lcov (augment lp r)) by (unfold lcov, tsz, augment; simpl; lia).
       apply ut_core_ok; auto.
   - destruct lp as [L C q N]; destruct lm as [L' C' q' N']; simpl in *; subst.
-    destruct additive; unfold g_cov, g_mean; lay_cbn; repeat step; finish2.
+    destruct additive, q'; unfold g_cov, g_mean; lay_cbn; repeat step; finish2.
 Qed.
 
 Lemma case_ukfc_safe additive lp comps r valid lm again :
@@ -333,14 +333,10 @@ Proof.
   intro Hv. apply run_safe_iff. unfold case_ukfc. cbv zeta.
   apply Forall_app; split; [apply ukf_correct_ok; exact Hv|].
   apply Forall_app; split; apply Forall_when; intro; [apply ukf_lik_ok|].
-  apply ukf_correct_ok. destruct Hv as (? & ? & ? & ? & ?). repeat split; assumption.
+  apply ukf_correct_ok. destruct Hv as (? & ? & ? & ?). repeat split; assumption.
 Qed.
 
-(* the three configurations on which the generic statement fails *)
-Lemma ukfc_quaternion_measurement_refuted :
-  check_shapes (case_ukfc false (Lay 3 0 false 0) 1 2 true (Lay 0 1 true 0) 3 (Lay 3 0 false 0) 1 false)
-  = Some (e_ukfc, "Pxy.middleCols(meas_size*i,meas_size)")%string.
-Proof. vm_compute. reflexivity. Qed.
+(* the configuration class on which the statement fails: quaternion states *)
 Lemma ukfc_quaternion_state_refuted :
   check_shapes (case_ukfc true (Lay 2 1 true 0) 1 2 true (Lay 2 0 false 0) 2 (Lay 2 1 true 0) 1 false)
   = Some (e_ukfc, "pred.mean(i)+K*innovation")%string.
@@ -388,17 +384,13 @@ Qed.
 Lemma case_resample_safe l n : 0 < n -> run (case_resample l n l n n) = Safe.
 Proof. intro. apply run_safe_iff, resample_ok; assumption. Qed.
 
-Lemma case_resprior_safe l n k : quat l = false -> noise l = 0 -> k < n ->
+Lemma case_resprior_safe l n k : noise l = 0 -> k < n ->
   run (case_resprior l n k n) = Safe.
 Proof.
-  intros Hq Hn Hk. apply run_safe_iff. unfold case_resprior, p_resample_prior. cbv zeta.
-  destruct l as [L C q N]; simpl in *; subst.
+  intros Hn Hk. apply run_safe_iff. unfold case_resprior, p_resample_prior. cbv zeta.
+  destruct l as [L C q N]; simpl in *; subst. destruct q;
   repeat step; try (apply resample_ok; lia); unfold g_cov; finish2.
 Qed.
-Lemma resprior_quaternion_refuted :
-  check_shapes (case_resprior (Lay 2 1 true 0) 4 2 4) = Some (e_resp, "tmp.state(j)=")%string.
-Proof. vm_compute. reflexivity. Qed.
-
 (* ---------- density utilities ---------- *)
 Lemma case_density_safe r c : run (case_density r c r r r) = Safe.
 Proof. apply run_safe_iff, density_ok. Qed.
